@@ -36,7 +36,7 @@ else:
     dst = os.path.join(wt, pkg, "zz_demo%s_test.go" % i)
     def rundemo():
         shutil.copy(demo, dst)
-        rc, o = sh(["go", "test", "-vet=off", "-tags", tags, "-count=1", "-run", "^(" + "|".join(tests) + ")$", "./" + pkg + "/"], timeout=600)
+        rc, o = sh(["go", "test", "-vet=off"] + (["-race"] if os.environ.get("DEMO_RACE") else []) + ["-tags", tags, "-count=1", "-run", "^(" + "|".join(tests) + ")$", "./" + pkg + "/"], timeout=600)
         os.remove(dst)
         return rc, o
 rc0, o0 = rundemo()
